@@ -26,7 +26,7 @@ func checkC09(c *fw.Ctx) {
 	for n := range ctxFields {
 		owned[n] = true
 	}
-	reach := fw.ReachableFuncs(c.P.VTA(), []*ssa.Function{root}, func(f *ssa.Function) bool { return c.P.IsRepoFunc(f) })
+	reach := fw.ReachableFuncs(c.Graph(), []*ssa.Function{root}, func(f *ssa.Function) bool { return c.P.IsRepoFunc(f) })
 	nfn, nw := 0, 0
 	var names []string
 	for f := range reach {
@@ -355,7 +355,7 @@ func checkNeeded(c *fw.Ctx) {
 			c.Undecided(rule, "handler "+h, "not found")
 			continue
 		}
-		r := fw.ReachableFuncs(c.P.VTA(), []*ssa.Function{fn}, func(f *ssa.Function) bool { return c.P.IsRepoFunc(f) })
+		r := fw.ReachableFuncs(c.Graph(), []*ssa.Function{fn}, func(f *ssa.Function) bool { return c.P.IsRepoFunc(f) })
 		used := map[string]bool{}
 		for f := range r {
 			for _, call := range fw.Calls(f) {
